@@ -1531,6 +1531,12 @@ impl<'d> Builder<'d> {
                                 .collect()
                         })
                         .collect();
+                    // a data block may list the same row twice: VALUES is a multiset of solutions, so matching solutions double
+                    let mut rows = rows;
+                    if *s % 3 == 0 {
+                        let again = rows[pick_idx(s.rotate_left(5), rows.len())].clone();
+                        rows.push(again);
+                    }
                     Some(Elem::Values(vars, rows))
                 }
                 RawElem::Sub(rs) => Some(Elem::Sub(Box::new(self.select_in(rs, false, scope)))),
@@ -1767,6 +1773,9 @@ pub fn features(q: &Select) -> Vec<&'static str> {
                 f.insert("values");
                 if rows.iter().any(|r| r.iter().any(|c| c.is_none())) {
                     f.insert("values-undef");
+                }
+                if rows.iter().enumerate().any(|(i, r)| rows[..i].contains(r)) {
+                    f.insert("values-repeated-row");
                 }
             }
             Elem::Sub(s) => {
